@@ -129,9 +129,10 @@ fn main() {
         // varies with the call index so that byte offsets fall inside multi-byte characters somewhere
         eprintln!("fatal: simulated git failure (simgit call {})", idx);
         let pad = "x".repeat((idx % 7) as usize);
-        for k in 0..6 {
+        for k in 0..8 {
+            // (mostly four-byte characters: three of four byte offsets lie inside a character)
             eprintln!(
-                "{}ヒント: 操作を完了できませんでした — Vorgang konnte nicht abgeschlossen werden ({}) — l'opération a échoué",
+                "{}ヒント{}：😀😕🙁😟😀😕🙁😟😀😕🙁😟𠮷𠀋𡈽𠮷𠀋𡈽😀😕🙁😟😀😕🙁😟 操作を完了できませんでした",
                 pad, k
             );
         }
